@@ -101,7 +101,7 @@ def run(ctx, model=None):
         check_main(ctx, p, model, seen)
         if ctx.time_left() < 0:
             return
-    for _ in range(20 if ctx.quick() else 300):
+    for _ in range(20 if ctx.quick() else 3000):
         p = {"seed": rng.choice([0, 1, 7, 47, 999132423]), "w": rng.randint(1, 4), "l": rng.randint(1, 4),
              "m": rng.choice([1, 2, 6, 11]), "rb": rng.choice(ks), "lb": rng.choice(ks), "tb": rng.choice(ks),
              "lt": rng.choice(ks), "fd": rng.random() < 0.5}
